@@ -145,6 +145,9 @@ func (r *Reader) Read(p []byte) (int, error) {
 	}
 }
 
+// AfterEndOrEnded reports whether the end error has been returned by some call.
+func (r *Reader) AfterEndOrEnded() bool { return r.ended }
+
 // Describe renders the recorded events.
 func (r *Reader) Describe() string {
 	s := ""
